@@ -120,6 +120,25 @@ add('C05',
     "Rotation covariance is sampled (rational rotations are not proved).",
     "Coq proof (Q arithmetic, rounding lemmas, list induction) + exact-rational correspondence + oracle incl. adversarial stream", "5/C05")
 
+UDF_NOTE = ("LiberTEM itself is not installed: the real UDF classes of /repo run under harness/stubs/libertem, an explicit-schedule stand-in for the UDF protocol "
+    "(get_result_buffers -> per partition get_task_data -> process_frame / process_tile with per-frame views of results and AUX data -> postprocess) with a dense "
+    "MaskContainer. This runner IS the UDF semantics for the check (trusted); real LiberTEM scheduling, CuPy and sparse array back-ends are not exercised (the slicing "
+    "crop function is injected through the task data). ")
+add('C10',
+    "Coq theorems: for ANY grouping of the frames into partitions (sizes, order), any buffer count and either cropping back-end the stored result of frame i is the "
+    "stand-alone result (induction over partitions and frames of the buffer state machine); tile-wise sums over any band grid equal the sum over the plane; the "
+    "masked dot product is the direct correlation with zero padding; for the code's per-tile log scaling tiling independence is proved when tiles share the minimum "
+    "and REFUTED in general (known finding F9, reported as KNOWN-FINDING). Tie: spied peak lists vs shifted_peak, sparse corr buffer vs the per-tile model. Oracle: "
+    "UDF classes vs stand-alone functions under random schedules.",
+    CORR_NOTE + UDF_NOTE,
+    "Coq proof (fold invariants over schedules, sum splitting, sum-of-indicator reindexing) + correspondence + schedule oracle", "5/C10")
+add('C11',
+    "Coq theorems: IntegrationUDF = masked sum of the zero-padded window; per-frame results for any partitioning; the refined peak list is exactly frame_peaks with "
+    "margin search in index order. Tie: IntegrationUDF vs UDF.integrate under vm_compute; run_refine's peaks/indices vs Lattice.frame_peaks (truncated). Oracle: stored "
+    "(zero, a, b, selector, error) bit-identical in float32 to the matcher on each frame's correlation result started from zero + that frame's shift; dispatch table.",
+    LAT_NOTE + UDF_NOTE + "The matcher itself is verified under C05/C06.",
+    "Coq proof + vm_compute / exact-rational correspondence + per-frame oracle under explicit schedules", "5/C11")
+
 NOT_YET = "check not built yet in this round (work in progress; design in DESIGN.md section 5)"
 
 def main():
